@@ -8,6 +8,8 @@ use crate::{
     sketch::CountMinSketch,
 };
 use parking_lot::Mutex;
+#[cfg(all(transparencies_stretto_verif, kani))]
+use crate::verif_kvec::Vec;
 use std::{
     collections::hash_map::RandomState,
     hash::BuildHasher,
